@@ -15,11 +15,16 @@
 (*   "response" $.response.body.a.b                                            *)
 (*   "foreign"  any other string (a JSONPath of another part of the            *)
 (*              transaction, free text): addresses nothing in the body         *)
+(*   "plain_other" a plain path configured for the body of the other direction *)
+(*              (legacy exporter: response_body_paths for a request body)      *)
 (* Entry points: "json" = Obfuscator.ObfuscateJSON (every body notation        *)
 (* addresses the document), "har_request" / "har_response" = the HAR           *)
 (* collector's request / response body (only the JSONPath notation of that     *)
 (* body addresses it; the plain notation is not a notation of the collector's  *)
-(* exclusion list, its effect there is left open).                             *)
+(* exclusion list, its effect there is left open), "legacy_request" /          *)
+(* "legacy_response" = the bodies exported by the legacy HAR generator plugin   *)
+(* (request_body_paths / response_body_paths hold plain paths; a JSONPath       *)
+(* written there is not a notation of that list, its effect is left open).      *)
 (*                                                                             *)
 (* The property, per leaf at path p: it must be kept verbatim when p lies on   *)
 (* or under an exclusion addressed to this body, otherwise it must be replaced *)
@@ -35,11 +40,14 @@ Addresses(x, entry) ==
     CASE entry = "json" -> x.n \in {"plain", "request", "response"}
       [] entry = "har_request" -> x.n = "request"
       [] entry = "har_response" -> x.n = "response"
+      [] entry \in {"legacy_request", "legacy_response"} -> x.n = "plain"
       [] OTHER -> FALSE
 
 MustKeep(p, X, entry) == \E x \in X : Addresses(x, entry) /\ IsPrefix(x.segs, p)
 MayKeep(p, X, entry) == \/ MustKeep(p, X, entry)
-                        \/ entry # "json" /\ \E x \in X : x.n = "plain" /\ IsPrefix(x.segs, p)
+                        \/ entry \in {"har_request", "har_response"} /\ \E x \in X : x.n = "plain" /\ IsPrefix(x.segs, p)
+                        \/ entry \in {"legacy_request", "legacy_response"}
+                              /\ \E x \in X : x.n \in {"request", "response"} /\ IsPrefix(x.segs, p)
 
 \* c: what happened to the leaf - "kept" (byte-identical), "hidden" (= hash of the value, differs from it), "other"
 LeafOK(p, t, c, X, entry) ==
